@@ -55,8 +55,9 @@ class Soap12(Soap11):
 
     def generate_subcode(self, value, subcode=None):
         subcode_node = E("{%s}Subcode" % self.ns_soap_env)
-        subcode_node.append(E("{%s}Value" % self.ns_soap_env, value))
-        if subcode:
+        subcode_node.append(E("{%s}Value" % self.ns_soap_env,
+                                                             fault_text(value)))
+        if subcode is not None:
             subcode_node.append(subcode)
         return subcode_node
 
@@ -135,12 +136,9 @@ class Soap12(Soap11):
                                                         subelts, add_type=False)
 
     def schema_validation_error_to_parent(self, ctx, cls, inst, parent, ns, **_):
-        subelts = [
-            E("{%s}Reason" % self.soap_env, inst.faultstring),
-            E("{%s}Role" % self.soap_env, inst.faultactor),
-        ]
-
-        return self._fault_to_parent_impl(ctx, cls, inst, parent, ns, subelts)
+        # a fault like any other: Code, Reason/Text and Role in the envelope's
+        # namespace
+        return self.fault_to_parent(ctx, cls, inst, parent, ns)
 
     def fault_from_element(self, ctx, cls, element):
         nsmap = {'soap': self.ns_soap_env}
